@@ -210,10 +210,10 @@ def work(ctx, tier):
             _jitter_case(ctx, viol, draws, name, f, fn, g, base, mx, attempt, prev, rng.choice(MODES), i)
 
         # ---------------------------------------------------------------- retry_after_or
-        HINTS = [None, math.nan, math.inf, -math.inf, -5.0, -0.0, 0.0, 1e-9, 0.5, 3.0, 120.0, 1e308, 1.7976931348623157e308, 5, 0, 10**18]
+        HINTS = [None, math.nan, math.inf, -math.inf, -5.0, -0.0, 0.0, 1e-9, 0.5, 3.0, 120.0, 1e308, 1.7976931348623157e308, 5, 0, 10**18, 10**400]
         JIT = [0.0, 0.25, -1.0, 1e308, 1e-12, 5.0, math.inf]
         REM = [None, 0.0, 1e-9, 0.5, 1.0, 60.0, 1e308]
-        FB = [0.0, 1.0, math.nan, math.inf, -math.inf, -3.0, 1e308, 7.5]
+        FB = [0.0, 1.0, math.nan, math.inf, -math.inf, -3.0, 1e308, 7.5, 10**400, -(10**400), 7]  # incl. ints no float can hold
         idx = 0
         for hint in HINTS:
             for j in JIT:
@@ -288,7 +288,10 @@ def _rao_case(ctx, viol, draws, hint, j, rem, fb, mode, shape="ctx-lambda", judg
     """`judge_window`: also judge "at least the hint, at most hint + jitter_s, unless the remaining time is smaller" - that sentence is
     C20's, so only C20's check asks for it; C18 itself states: finite, non-negative, no larger than the remaining deadline, never raises."""
     draws.mode = mode
-    case = {"strategy": "retry_after_or", "hint": hint, "jitter_s": j, "remaining_s": rem, "fallback_returns": fb, "draw": mode, "fallback_shape": shape}
+    def shown(x):
+        return x if not (isinstance(x, int) and not isinstance(x, bool) and abs(x) > 2**1000) else f"<{'-' if x < 0 else ''}int of {x.bit_length()} bits>"
+
+    case = {"strategy": "retry_after_or", "hint": shown(hint), "jitter_s": j, "remaining_s": rem, "fallback_returns": shown(fb), "draw": mode, "fallback_shape": shape}
     ctx.cnt["eval:retry_after_or"] += 1
     ctx.cnt["evaluations"] += 1
     ctx.cnt["fallback_shape:" + shape] += 1
@@ -298,13 +301,22 @@ def _rao_case(ctx, viol, draws, hint, j, rem, fb, mode, shape="ctx-lambda", judg
     except BaseException as x:  # noqa: BLE001
         viol("strategy-raised:" + type(x).__name__, f"retry_after_or raised {type(x).__name__}: {x} for {case}", case)
         return
-    case["result"] = r
+    case["result"] = r if not (isinstance(r, int) and abs(r) > 2**1000) else f"<int of {r.bit_length()} bits>"
+    if isinstance(r, int) and not isinstance(r, bool) and abs(r) > 2**1000:
+        # an int beyond float range is still a finite number of seconds (the engine caps it at the remaining time, F13)
+        ctx.cnt["rao_results_beyond_float_range"] += 1
+        if r < 0 or rem is not None:
+            viol("retry-after-or-bad-delay", f"retry_after_or returned {case['result']} for {case}", case)
+        return
     if not isinstance(r, (int, float)) or not math.isfinite(r) or r < 0:
         viol("retry-after-or-bad-delay", f"retry_after_or returned {r!r} for {case}", case)
         return
     if rem is not None and r > rem:
         viol("retry-after-or-exceeds-remaining", f"retry_after_or returned {r!r} > remaining {rem!r} for {case}", case)
-    honoured = hint is not None and isinstance(hint, (int, float)) and math.isfinite(hint)
+    huge_hint = isinstance(hint, int) and not isinstance(hint, bool) and abs(hint) > 2**1000
+    honoured = hint is not None and isinstance(hint, (int, float)) and not huge_hint and math.isfinite(hint)
+    if huge_hint:
+        ctx.cnt["rao_hints_beyond_float_range"] += 1  # judged for totality and the remaining-time cap only
     if honoured and not judge_window:
         ctx.cnt["rao_hint_honoured"] += 1
     elif honoured:
@@ -566,7 +578,7 @@ def _adaptive_history(ctx, viol, world, rng, i):
                 world.t += d
                 hist.append(["adv", d])
             else:
-                fbv[0] = rng.choice([0.0, 1.0 / 64, 0.25, 1.0, 7.0, 1e3, 1e300])
+                fbv[0] = rng.choice([0.0, 1.0 / 64, 0.25, 1.0, 7.0, 1e3, 1e300, 10**400])
                 # what the strategy is told about the remaining deadline changes nothing: adaptive() scales, the engine clamps
                 rem_told = rng.choice([None, None, 1e-9, 0.5, 3.0, 60.0])
                 ctxo = BackoffContext(attempt=rng.choice([1, 2, 7]), classification=Classification(klass=K), prev_sleep_s=None, remaining_s=rem_told, cause="exception")
@@ -576,6 +588,13 @@ def _adaptive_history(ctx, viol, world, rng, i):
                 ctx.cnt["eval:adaptive"] += 1
                 ctx.cnt["evaluations"] += 1
                 f = fbv[0]
+                if isinstance(f, int) and f > 2**1000:
+                    # a fallback value no float can hold: adaptive() answers (the engine caps it), and not with less than the fallback
+                    hist.append(["call", "<int beyond float range>", "<int>" if isinstance(r, int) else r])
+                    ctx.cnt["adaptive_fallback_values_beyond_float_range"] += 1
+                    if not isinstance(r, (int, float)) or r != r or r < f:
+                        viol("adaptive-below-fallback", f"adaptive returned {r if not isinstance(r, int) else '<int>'} for a fallback of 10**400; {cfgd}", {"cfg": cfgd, "history": hist})
+                    continue
                 hist.append(["call", f, r])
                 lo, hi = f * mn, f * mxm
                 if not (isinstance(r, float) or isinstance(r, int)) or r != r:
@@ -623,7 +642,7 @@ def conclude(ctx):
         floors=floors,
         assumptions=[
             "random draws reach the strategies only through random.uniform (interposed); the draw is computed as CPython does (a+(b-a)*u) from adversarial u, or forced to the upper endpoint",
-            "parameters satisfy 0 <= base_s <= max_s; multipliers finite; hints are floats or ints within float range",
+            "parameters satisfy 0 <= base_s <= max_s; multipliers finite; hints and fallback values are floats or ints (ints beyond float range are judged for totality, sign and the remaining-time cap only); base_s is finite, max_s may be inf",
             "envelope comparisons use relative tolerance 1e-9; the reference cap is computed in the log domain when base*g^attempt would overflow",
         ],
         exhaustive=False,
